@@ -654,6 +654,8 @@ func (this *Writer) processBlock() error {
 	results := make([]encodingTaskResult, nbTasks)
 	firstID := this.blockID
 
+	verifHook(this.ctx, VH_W_SPAWN, firstID, int64(nbTasks), int64(this.available), nil)
+
 	// Invoke as many go routines as required
 	for taskID := 0; taskID < nbTasks; taskID++ {
 		dataLength := this.available
@@ -699,6 +701,7 @@ func (this *Writer) processBlock() error {
 
 	// Wait for completion of all tasks
 	wg.Wait()
+	verifHook(this.ctx, VH_W_JOIN, atomic.LoadInt32(&this.blockID), int64(tasks), int64(this.available), nil)
 
 	for _, r := range results {
 		if r.err != nil {
@@ -731,6 +734,7 @@ func (this *encodingTask) encode(res *encodingTaskResult) {
 	buffer := this.oBuffer.Buf
 	mode := byte(0)
 	checksum := uint64(0)
+	verifHook(this.ctx, VH_E_START, this.currentBlockID, int64(this.blockLength), 0, verifClip(data, int(this.blockLength)))
 
 	defer func() {
 		if r := recover(); r != nil {
@@ -742,6 +746,8 @@ func (this *encodingTask) encode(res *encodingTaskResult) {
 			}
 		}
 
+		verifHook(this.ctx, VH_E_FIN0, this.currentBlockID, verifErr(res.err), 0, nil)
+
 		// Unblock other tasks
 		if res.err != nil {
 			atomic.StoreInt32(this.processedBlockID, _CANCEL_TASKS_ID)
@@ -749,6 +755,7 @@ func (this *encodingTask) encode(res *encodingTaskResult) {
 			atomic.CompareAndSwapInt32(this.processedBlockID, this.currentBlockID-1, this.currentBlockID)
 		}
 
+		verifHook(this.ctx, VH_E_FIN1, this.currentBlockID, verifErr(res.err), int64(atomic.LoadInt32(this.processedBlockID)), nil)
 		this.wg.Done()
 	}()
 
@@ -912,6 +919,7 @@ func (this *encodingTask) encode(res *encodingTaskResult) {
 	ee.Dispose()
 	obs.Close()
 	written := obs.Written()
+	verifHook(this.ctx, VH_E_LOCAL, this.currentBlockID, int64(written), int64(postTransformLength)|int64(mode)<<32|int64(skipFlags)<<40, verifClip(data, int((written+7)>>3)))
 
 	if len(this.listeners) > 0 {
 		// Notify after entropy
@@ -931,11 +939,14 @@ func (this *encodingTask) encode(res *encodingTaskResult) {
 		}
 	}
 
+	verifHook(this.ctx, VH_E_WAIT, this.currentBlockID, 0, 0, nil)
+
 	// Lock free synchronization
 	for n := 0; ; n++ {
 		taskID := atomic.LoadInt32(this.processedBlockID)
 
 		if taskID == _CANCEL_TASKS_ID {
+			verifHook(this.ctx, VH_E_SEEN, this.currentBlockID, int64(taskID), 0, nil)
 			return
 		}
 
@@ -947,6 +958,8 @@ func (this *encodingTask) encode(res *encodingTaskResult) {
 			runtime.Gosched()
 		}
 	}
+
+	verifHook(this.ctx, VH_E_SEEN, this.currentBlockID, int64(this.currentBlockID-1), 0, nil)
 
 	// Emit block size in bits (max size pre-entropy is 1 GB = 1 << 30 bytes)
 	lw := uint(3)
@@ -974,6 +987,8 @@ func (this *encodingTask) encode(res *encodingTaskResult) {
 			chkSize = uint(written)
 		}
 	}
+
+	verifHook(this.ctx, VH_E_EMIT1, this.currentBlockID, 0, 0, nil)
 }
 
 func notifyListeners(listeners []kanzi.Listener, evt *kanzi.Event) {
@@ -1657,6 +1672,8 @@ func (this *Reader) processBlock() (int64, error) {
 		wg := sync.WaitGroup{}
 		firstID := this.blockID
 
+		verifHook(this.ctx, VH_R_SPAWN, firstID, int64(nbTasks), 0, nil)
+
 		// Invoke as many go routines as required
 		for taskID := 0; taskID < nbTasks; taskID++ {
 			if len(this.buffers[taskID].Buf) < int(bufSize) {
@@ -1694,6 +1711,7 @@ func (this *Reader) processBlock() (int64, error) {
 
 		// Wait for completion of all tasks
 		wg.Wait()
+		verifHook(this.ctx, VH_R_JOIN, atomic.LoadInt32(&this.blockID), int64(nbTasks), 0, nil)
 
 		// Process results
 		n, skipped := 0, 0
@@ -1785,6 +1803,8 @@ func (this *decodingTask) decode(res *decodingTaskResult) {
 			}
 		}
 
+		verifHook(this.ctx, VH_D_FIN0, this.currentBlockID, verifErr(res.err), int64(res.decoded), verifClip(res.data, res.decoded))
+
 		// Unblock other tasks
 		if res.err != nil || (res.decoded == 0 && res.skipped == false) {
 			atomic.StoreInt32(this.processedBlockID, _CANCEL_TASKS_ID)
@@ -1792,14 +1812,18 @@ func (this *decodingTask) decode(res *decodingTaskResult) {
 			atomic.StoreInt32(this.processedBlockID, this.currentBlockID)
 		}
 
+		verifHook(this.ctx, VH_D_FIN1, this.currentBlockID, verifErr(res.err), int64(atomic.LoadInt32(this.processedBlockID)), nil)
 		this.wg.Done()
 	}()
+
+	verifHook(this.ctx, VH_D_WAIT, this.currentBlockID, 0, 0, nil)
 
 	// Lock free synchronization
 	for n := 0; ; n++ {
 		taskID := atomic.LoadInt32(this.processedBlockID)
 
 		if taskID == _CANCEL_TASKS_ID {
+			verifHook(this.ctx, VH_D_SEEN, this.currentBlockID, int64(taskID), 0, nil)
 			return
 		}
 
@@ -1812,10 +1836,13 @@ func (this *decodingTask) decode(res *decodingTaskResult) {
 		}
 	}
 
+	verifHook(this.ctx, VH_D_SEEN, this.currentBlockID, int64(this.currentBlockID-1), 0, nil)
+
 	// Read shared bitstream sequentially
 	blockOffset := this.ibs.Read()
 	lr := uint(this.ibs.ReadBits(5)) + 3
 	read := this.ibs.ReadBits(lr)
+	verifHook(this.ctx, VH_D_READ0, this.currentBlockID, int64(read), int64(blockOffset), nil)
 
 	if read == 0 {
 		return
@@ -1851,13 +1878,17 @@ func (this *decodingTask) decode(res *decodingTaskResult) {
 		read -= uint64(chkSize)
 	}
 
+	verifHook(this.ctx, VH_D_READ1, this.currentBlockID, int64(r), 0, nil)
+
 	// After completion of the bitstream reading, increment the block id.
 	// It unblocks the task processing the next block (if any)
 	atomic.StoreInt32(this.processedBlockID, this.currentBlockID)
+	verifHook(this.ctx, VH_D_PUB, this.currentBlockID, 0, 0, nil)
 
 	// Check if the block must be skipped
 	if v, hasKey := this.ctx["from"]; hasKey {
 		if int(this.currentBlockID) < v.(int) {
+			verifHook(this.ctx, VH_D_SKIP, this.currentBlockID, 0, 0, nil)
 			skipped = true
 			return
 		}
@@ -1865,6 +1896,7 @@ func (this *decodingTask) decode(res *decodingTaskResult) {
 
 	if v, hasKey := this.ctx["to"]; hasKey {
 		if int(this.currentBlockID) >= v.(int) {
+			verifHook(this.ctx, VH_D_SKIP, this.currentBlockID, 0, 0, nil)
 			skipped = true
 			return
 		}
@@ -1990,6 +2022,7 @@ func (this *decodingTask) decode(res *decodingTaskResult) {
 	}
 
 	decoded = int(oIdx)
+	verifHook(this.ctx, VH_D_DEC, this.currentBlockID, int64(decoded), 0, verifClip(data, decoded))
 
 	// Verify checksum
 	if this.hasher32 != nil {
